@@ -216,6 +216,16 @@ func init() {
 	reg("crypto/hmac.Equal", func(x *Exec, g *G, a []Value) Value {
 		return bytesEq(termBytes(a[0]), termBytes(a[1]))
 	})
+	// crypto/subtle: the timing-safe primitives are compiler intrinsics; modelled by their value contract
+	reg("crypto/subtle.ConstantTimeCompare", func(x *Exec, g *G, a []Value) Value {
+		return Ite(bytesEq(termBytes(a[0]), termBytes(a[1])), MkBV(64, 1), MkBV(64, 0))
+	})
+	reg("crypto/subtle.ConstantTimeByteEq", func(x *Exec, g *G, a []Value) Value {
+		return Ite(Eq(a[0].(*Term), a[1].(*Term)), MkBV(64, 1), MkBV(64, 0))
+	})
+	reg("crypto/subtle.ConstantTimeEq", func(x *Exec, g *G, a []Value) Value {
+		return Ite(Eq(a[0].(*Term), a[1].(*Term)), MkBV(64, 1), MkBV(64, 0))
+	})
 	// Idealised MAC: an injective function of (message, key).
 	reg("github.com/gammazero/nexus/v3/wamp/crsign.SignChallengeBytes", func(x *Exec, g *G, a []Value) Value {
 		ch := a[0].(*Str)
